@@ -142,6 +142,7 @@ Qed.
 
 (** * Hash, set and sorted-set handlers *)
 From EV Require Import Model.HashVal Model.CmdHash Model.CmdSet Model.ZSetOps Model.ZSetMulti Model.CmdZSet.
+From EV Require Import Model.CmdZRand Model.CmdKeyspace.
 
 Ltac chain_cases tac :=
   repeat match goal with
@@ -186,6 +187,21 @@ Proof.
   chain_cases ltac:(apply nf_run_zset).
 Qed.
 
+Lemma nf_zrand pick name h argv : zrand_handler pick name = Some h -> noflushall (h argv).
+Proof. unfold zrand_handler. destruct (String.eqb _ _); [|done]. intros [= <-]. apply nf_run_zset. Qed.
+
+Lemma nf_keyspace cands name h argv : keyspace_handler cands name = Some h -> noflushall (h argv).
+Proof.
+  unfold keyspace_handler. chain_cases ltac:(idtac).
+  all: unfold handle_randomkey, handle_touch, handle_objfreq, handle_objidletime; nf.
+Qed.
+
+Lemma eb_keyspace cands name h argv : keyspace_handler cands name = Some h -> ebw false (h argv).
+Proof.
+  unfold keyspace_handler. chain_cases ltac:(idtac).
+  all: unfold handle_randomkey, handle_touch, handle_objfreq, handle_objidletime; eb.
+Qed.
+
 (** Every handler of every modelled module, for every argument vector: no FLUSHALL inside, unless the
     command word is FLUSHALL itself. *)
 Theorem nf_every_handler name h argv :
@@ -198,7 +214,9 @@ Proof.
   destruct (set_handler default_pick name) eqn:E3; [injection Hh as <-; by eapply nf_set|].
   destruct (zset_handler name) eqn:E4; [injection Hh as <-; by eapply nf_zset|].
   destruct (generic_handler name) eqn:E5; [injection Hh as <-; by eapply nf_generic|].
-  by eapply nf_string.
+  destruct (string_handler name) eqn:E6; [injection Hh as <-; by eapply nf_string|].
+  destruct (zrand_handler default_zpick name) eqn:E7; [injection Hh as <-; by eapply nf_zrand|].
+  by eapply nf_keyspace.
 Qed.
 
 (** * Read-only handlers of the hash, set and sorted-set modules *)
@@ -303,12 +321,26 @@ Proof. unfold handle_zunion, decode_zunion. ro_multi. Qed.
 Lemma ro_zdiff argv : readonly (handle_zdiff argv).
 Proof. unfold handle_zdiff, decode_zdiff. ro_multi. Qed.
 
+(** ZRANDMEMBER (any selection function) and the four keyspace-function commands (any random source). *)
+Lemma ro_zrandmember pick argv : readonly (handle_zrandmember pick argv).
+Proof.
+  unfold handle_zrandmember, run_zset, single, decode_zrandmember.
+  destruct (_ || _); simpl; [apply ro_ret|]. apply ro_run_single. cbn [zd_body]. intros a p Hb.
+  destruct (zrand_count argv); [|discriminate]. destruct (_ && _); [discriminate|].
+  injection Hb as <- <-. split; [eexists; reflexivity|intros zz; eexists; reflexivity].
+Qed.
+Lemma ro_randomkey cands argv : readonly (handle_randomkey cands argv). Proof. unfold handle_randomkey. ro. Qed.
+Lemma ro_touch argv : readonly (handle_touch argv). Proof. unfold handle_touch. ro. Qed.
+Lemma ro_objfreq argv : readonly (handle_objfreq argv). Proof. unfold handle_objfreq. ro. Qed.
+Lemma ro_objidletime argv : readonly (handle_objidletime argv). Proof. unfold handle_objidletime. ro. Qed.
+
 (** * The read-only command words of all modelled modules *)
 Definition all_readonly_words : list string :=
   readonly_words ++
   ["hget"; "hmget"; "hstrlen"; "hvals"; "hrandfield"; "hlen"; "hkeys"; "hgetall"; "hexists";
    "scard"; "sdiff"; "sinter"; "sintercard"; "sismember"; "smembers"; "smismember"; "srandmember"; "sunion";
-   "zcard"; "zcount"; "zdiff"; "zinter"; "zmscore"; "zrank"; "zrevrank"; "zscore"; "zlexcount"; "zrange"; "zunion"].
+   "zcard"; "zcount"; "zdiff"; "zinter"; "zmscore"; "zrank"; "zrevrank"; "zscore"; "zlexcount"; "zrange"; "zunion";
+   "zrandmember"; "randomkey"; "touch"; "objectfreq"; "objectidletime"].
 
 Theorem all_readonly_words_sound name h argv :
   In name all_readonly_words -> handler_of name = Some h -> readonly (h argv).
@@ -346,11 +378,16 @@ Proof.
           | change (handler_of "zscore") with (Some handle_zscore) in Hh
           | change (handler_of "zlexcount") with (Some handle_zlexcount) in Hh
           | change (handler_of "zrange") with (Some handle_zrange) in Hh
-          | change (handler_of "zunion") with (Some handle_zunion) in Hh ];
+          | change (handler_of "zunion") with (Some handle_zunion) in Hh
+          | change (handler_of "zrandmember") with (Some (handle_zrandmember default_zpick)) in Hh
+          | change (handler_of "randomkey") with (Some (handle_randomkey default_keysource)) in Hh
+          | change (handler_of "touch") with (Some handle_touch) in Hh
+          | change (handler_of "objectfreq") with (Some handle_objfreq) in Hh
+          | change (handler_of "objectidletime") with (Some handle_objidletime) in Hh ];
     injection Hh as <-;
     auto using ro_hget, ro_hstrlen, ro_hvals, ro_hrandfield, ro_hlen, ro_hkeys, ro_hgetall, ro_hexists,
       ro_scard, ro_sdiff, ro_sinter, ro_sintercard, ro_sismember, ro_smembers, ro_smismember, ro_srandmember,
       ro_sunion, ro_zcard, ro_zcount, ro_zdiff, ro_zinter, ro_zmscore, ro_zrank, ro_zscore, ro_zlexcount,
-      ro_zrange, ro_zunion |]).
+      ro_zrange, ro_zunion, ro_zrandmember, ro_randomkey, ro_touch, ro_objfreq, ro_objidletime |]).
   destruct Hin.
 Qed.
